@@ -161,7 +161,7 @@ func TestC14_Planted(t *testing.T) {
 				e = &bx.Quant{All: all, Sel: bx.Sel{Parts: []string{"m"}}, Mode: bx.BindValue, Value: "v", Body: &bx.Match{Sel: bx.Sel{Parts: []string{"v", "f"}}, Op: bx.OpNe, Lit: lit}}
 			}
 		}
-		if shape >= 5 {
+		if shape == 5 || shape == 6 {
 			// key-only bindings: a comparison on the key decides, for some keys only, whether a failing
 			// sub-expression that does not depend on the element is reached
 			key := "k" + strconv.Itoa(rapid.IntRange(0, n-1).Draw(t, "decisiveKey"))
